@@ -19,6 +19,13 @@ RL, ZL = (1.0, 2.0), (-0.7, 0.7)
 
 
 def funcs(lobes, sign):
+    if lobes and lobes[0][0] == "quad":
+        # pure quadratic: sign * ((R - Rc)^2 + k (Z - Zc)^2); k < 0 gives an X-point.  A cubic spline reproduces it exactly.
+        _, Rc, Zc, k = lobes[0]
+        return ((lambda R, Z: sign * ((R - Rc) ** 2 + k * (Z - Zc) ** 2)),
+                (lambda R, Z: (sign * 2 * (R - Rc), sign * 2 * k * (Z - Zc))),
+                (lambda R, Z: (sign * 2.0, 0.0, sign * 2.0 * k)))
+
     def psi(R, Z):
         return sign * sum(a * np.exp(-((R - r) ** 2 + (Z - z) ** 2) / w ** 2) for a, r, z, w in lobes)
 
@@ -135,9 +142,13 @@ def run(c):
     from harness import equilibria as E
 
     sign = c["sign"]
-    psi, grad, hess = funcs(c["lobes"], sign)
     nR, nZ = c["nR"], c["nZ"]
     r1, z1 = np.linspace(*RL, nR), np.linspace(*ZL, nZ)
+    if c["lobes"] and c["lobes"][0][0] == "quadnode":
+        # position given as (node index, fraction of the cell) so that half-cell positions are exactly equidistant from two nodes
+        _, iR, fr, jZ, fz, k = c["lobes"][0]
+        c = dict(c, lobes=[["quad", float(r1[iR] + fr * (r1[iR + 1] - r1[iR])), float(z1[jZ] + fz * (z1[jZ + 1] - z1[jZ])), k]])
+    psi, grad, hess = funcs(c["lobes"], sign)
     R2, Z2 = np.meshgrid(r1, z1, indexing="ij")
     psi2 = psi(R2, Z2)
     hR, hZ = r1[1] - r1[0], z1[1] - z1[0]
@@ -163,23 +174,30 @@ def run(c):
         rec["skip"] = "nearly degenerate critical point"
     Rmid, Zmid = 0.5 * (r1[0] + r1[-1]), 0.5 * (z1[0] + z1[-1])
     tos = sorted([p for p in inpts if p[3] == "O"], key=lambda p: (p[0] - Rmid) ** 2 + (p[1] - Zmid) ** 2)
-    if not tos:
+    rec["notok"] = 1 if c.get("notok") else 0
+    if not tos and not c.get("notok"):
         rec["skip"] = "no O-point in the searched interior"
         return rec
     if len(tos) > 1 and abs(np.hypot(tos[0][0] - Rmid, tos[0][1] - Zmid) - np.hypot(tos[1][0] - Rmid, tos[1][1] - Zmid)) < 2 * max(hR, hZ):
         rec["skip"] = "two O-points equally near the centre"
-    axis = tos[0]
+    axis = tos[0] if tos else (Rmid, Zmid, 0.0)
     txs = sorted([p for p in inpts if p[3] == "X"], key=lambda p: abs(p[2] - axis[2]))
     for a, b in zip(txs[:-1], txs[1:]):
         if abs(abs(a[2] - axis[2]) - abs(b[2] - axis[2])) < 1e-4 * abs(axis[2]):
             rec["tie"] = 1         # two X-points at (nearly) the same psi: their order (and which is primary) is undetermined
     psirange = max(abs(p[2]) for p in pts) if pts else 1.0
+    if psirange == 0.0:
+        psirange = float(np.max(np.abs(psi2)))
     qpsi = 1e-7 * psirange
     wall = E.default_wall(inset=c.get("wall_inset", 0.2))
     poly = np.array(wall)
     psi_bdry = txs[0][2] if txs else None
     tx_recs = []
     for p in txs:
+        if c.get("notok"):
+            tx_recs.append({"open": 1, "R": int(round(p[0] / 1e-6)), "Z": int(round(p[1] / 1e-6)), "psi": int(round(p[2] / qpsi)), "mono": 1, "inwall": 1, "insol": 1,
+                            "below": 1, "psinorm": 1.0})
+            continue
         drop, far = mono_metric(psi, axis, p)
         if 0.0003 < drop < 0.003 or 0.5e-4 < far < 2e-4:
             rec["skip"] = "monotonicity test at its threshold"
@@ -214,6 +232,9 @@ def run(c):
 
     rec["found_o"] = [frec(p) for p in fo]
     rec["found_x"] = [frec(p) for p in fx]
+    if c.get("notok"):
+        rec["tok"] = {"outcome": "refused", "exc": "not run", "regions": [], "xkept": [], "primary_lower": 0, "legs": []}
+        return rec
     # (c) TokamakEquilibrium
     opts = {}
     opts.update(E.size_options("LSN", [2, 2], [2, 4, 2], 1))
